@@ -152,7 +152,7 @@ func c08MutateLines(t *rapid.T, text string, isLog bool, muts *[]string) []byte 
 	// names), the others get 1-6 mutations
 	n := []int{0, 0, 0, 1, 1, 2, 3, 6}[rapid.IntRange(0, 7).Draw(t, "nmut")]
 	for i := 0; i < n; i++ {
-		kind := rapid.IntRange(0, 27).Draw(t, "mut")
+		kind := rapid.IntRange(0, 28).Draw(t, "mut")
 		pick := func() int {
 			if len(lines) == 0 {
 				lines = append(lines, "")
@@ -283,6 +283,34 @@ func c08MutateLines(t *rapid.T, text string, isLog bool, muts *[]string) []byte 
 					lines = append(lines, vFmtDay(j, "")+":\n", fmt.Sprintf("  many%d: 1\n", j%7))
 				} else {
 					lines = append(lines, fmt.Sprintf("many%d:\n", j), "  x: 1\n")
+				}
+			}
+		case 28:
+			name = "not-a-number-amounts"
+			// NaN and infinite amounts of a name the file already mentions (orderings and sums that assume x == x)
+			names := []string{"x"}
+			seenNm := map[string]bool{"x": true}
+			for _, ln := range lines {
+				if len(names) >= 9 || (!strings.HasPrefix(ln, " ") && !strings.HasPrefix(ln, "\t")) {
+					continue
+				}
+				nm := strings.Trim(strings.TrimRight(ln, "\r\n"), " \t-\"")
+				if j := strings.LastIndex(nm, ":"); j > 0 {
+					nm = strings.Trim(nm[:j], " \t\"")
+				}
+				if nm != "" && !strings.HasPrefix(nm, "#") && !seenNm[nm] {
+					seenNm[nm] = true
+					names = append(names, nm)
+				}
+			}
+			if isLog {
+				lines = append(lines, "2021/01/06:\n")
+				for _, nm := range names {
+					lines = append(lines, "  "+nm+": NaN\n")
+				}
+			} else {
+				for i, nm := range names {
+					lines = append(lines, fmt.Sprintf("nan~rec%d:\n", i), "  "+nm+": NaN\n", fmt.Sprintf("nan~two%d:\n", i), "  "+nm+": NaN\n", fmt.Sprintf("  nan~rec%d: 2\n", i), fmt.Sprintf("inf~rec%d:\n", i), "  "+nm+": Inf\n", "  "+nm+": -Inf\n")
 				}
 			}
 		case 27:
